@@ -118,6 +118,8 @@ def consumer_cases(rnd, vals, count):
         else:
             arr = [rnd.choice(vals[:30]) for _ in range(rnd.randint(0, 8))]
             val = rnd.choice(arr) if arr and rnd.random() < 0.7 else rnd.choice(vals)
+            if callable(val):
+                val = None          # a function value would be used as a match function, not compared
             which = rnd.choice(['first', 'last'])
             start = rnd.randint(0, max(0, len(arr) - 1)) if which == 'first' and arr else 0
             from bare_script.value import ValueArgsError
